@@ -150,6 +150,8 @@ type Compiler struct {
 	// evaluation for configd:must statements when using tools that are run
 	// without custom function plugins present (eg yangc / DRAM).
 	userFnChecker xpath.UserCustomFunctionCheckerFn
+	// typedefs whose base type is currently being resolved (cycle detection)
+	typedefChain map[parse.Node]bool
 }
 
 const (
@@ -2399,6 +2401,17 @@ func (c *Compiler) BuildBaseType(
 		return c.makeBuiltinType(cfgNode, typ, tname.Local, def, hasDef, parentStatus), tname, true
 	}
 	c.assertReferenceStatus(typ, refType, parentStatus)
+
+	// A typedef that refers to itself, directly or through other typedefs,
+	// would make this resolution recurse until the stack overflows.
+	if c.typedefChain == nil {
+		c.typedefChain = make(map[parse.Node]bool)
+	}
+	if c.typedefChain[refType] {
+		c.error(typ, fmt.Errorf("typedef cyclic reference: %s", typeName))
+	}
+	c.typedefChain[refType] = true
+	defer delete(c.typedefChain, refType)
 
 	typ2 := refType.ChildByType(parse.NodeTyp)
 	tdef := refType.Def()
